@@ -17,11 +17,16 @@ OTHER7 = ["sha224", "sha3_224", "sha3_256", "sha3_384", "sha3_512", "blake2b", "
 DEFAULT_NS = "https://ns.dataone.org/service/types/v2.0#SystemMetadata"
 
 
+_SEPS = [b"\n", b"\r\n", b"\r", b"\xff\x00\n", b"\xc3\x28", b"\x1a", b"\xe2\x82\xac\n"]
+
+
 def _blob(tag: bytes, n: int) -> bytes:
+    """Deterministic content that is hostile to text-mode handling: CRLF and lone CR (newline
+    translation), bytes that are not valid UTF-8, NUL, Ctrl-Z, a multi-byte character."""
     out = bytearray()
     i = 0
     while len(out) < n:
-        out += tag + str(i).encode() + b"\n"
+        out += tag + str(i).encode() + _SEPS[i % len(_SEPS)]
         i += 1
     return bytes(out[:n])
 
@@ -41,11 +46,14 @@ class Inst:
         # formats: fD is the store namespace; f2/f3 are chosen so that
         #   pid(p1) + f2 == pid(p2) + f3   whenever p2 = p1 + suffix
         default_fmts = {"fD": ns, "f3": "ns3", "f2": ".1ns3", "f4": "http://ns.example/4"}
+        if "f3" not in fmts:
+            # two-format alphabets: pid(p1) + f2 == pid(p2) + fD (p2 = p1 + ".1")
+            default_fmts["f2"] = ".1" + ns
         self.fmt = dict(fmt_strings or {f: default_fmts[f] for f in fmts})
         default_contents = {"a": _blob(b"alpha", 37), "b": _blob(b"bravo", 8192 + 17),
                             "c": b""}
         self.content = dict(content_bytes or {c: default_contents[c] for c in contents})
-        default_vers = {"v1": b"<sysmeta v='1'/>", "v2": _blob(b"<m2/>", 20000), "v3": b""}
+        default_vers = {"v1": b"<sysmeta v='1'/>\r\n\xff", "v2": _blob(b"<m2/>", 20000), "v3": b""}
         self.ver = dict(ver_bytes or {v: default_vers[v] for v in vers})
         self.cid = {c: hashlib.new(self.h, b).hexdigest() for c, b in self.content.items()}
         for k, x in enumerate(extras):
